@@ -43,8 +43,9 @@ def run_r1(ctx, rule):
         for bb, t in f.calls():
             if is_sink_call(t):
                 sites.append((f, bb, t))
-    homes = {DW + "flush_defer_err", DW + "write_all_defer_err_cold"}
+    is_guard = lambda fa: fa[0] == "bool" and fa[1][0] == "call" and fa[1][3] and fa[1][3][0] == ("f", SELF, "io_error") and (fa[2] is True and norm(fa[1][2]).endswith("Option::is_none") or fa[2] is False and norm(fa[1][2]).endswith("Option::is_some"))
     seen = set()
+    kinds = set()
     for f, bb, t in sites:
         nid = norm(f.id)
         cn = util.cname(t)
@@ -55,11 +56,26 @@ def run_r1(ctx, rule):
         if recv != ("f", SELF, "write"):
             continue
         seen.add(nid)
-        if nid not in homes or m != "write_all":
-            rule.bad("%s/sink-%s" % (nid, m), "the sink is called (%s) outside the two sanctioned sites" % m, f.loc(bb))
+        if m != "write_all":
+            rule.bad("%s/sink-%s" % (nid, m), "the sink is driven through %s: only write_all (which retries short writes) delivers every byte" % m, f.loc(bb))
             continue
-        g = guards.holds(f, bb, lambda fa: fa[0] == "bool" and fa[1][0] == "call" and fa[1][3] and fa[1][3][0] == ("f", SELF, "io_error") and (fa[2] is True and norm(fa[1][2]).endswith("Option::is_none") or fa[2] is False and norm(fa[1][2]).endswith("Option::is_some")))
-        rule.check(bool(g), "%s/sink-while-error-parked" % short(nid), "the sink is only called while no error is parked (%s)" % (guards.show_fact(f, g[1]) if g else "no dominating io_error.is_none()"), f.loc(bb))
+        # what is handed to the sink: the whole internal buffer (a flush) or a slice parameter (a direct write)
+        arg = strip_bb(sy.operand(t["args"][1]))
+        if mentions(arg, lambda x: x == ("f", SELF, "buf")):
+            kinds.add("flush")
+        elif arg[0] == "l" and 2 <= arg[1] <= f.argc:
+            kinds.add("direct")
+        else:
+            rule.bad("%s/sink-data" % short(nid), "the sink receives neither the internal buffer nor the caller's slice (%s)" % sy.show(arg)[:60], f.loc(bb))
+        g = guards.holds(f, bb, is_guard)
+        how = guards.show_fact(f, g[1]) if g else None
+        if not g and not f.j.get("pub"):
+            # a private helper: the guard may sit at every one of its call sites
+            callers = [(f2, b2) for f2 in facts.fns.values() if f2.crate not in ("ext", "promoted") for b2, t2 in f2.calls() if norm(util.cname(t2)) == nid]
+            if callers and all(guards.holds(f2, b2, is_guard) for f2, b2 in callers):
+                g = True
+                how = "guarded at all %d call sites of the private helper" % len(callers)
+        rule.check(bool(g), "%s/sink-while-error-parked" % short(nid), "the sink is only called while no error is parked (%s)" % (how or "no dominating io_error.is_none()"), f.loc(bb))
         # the Err of the sink call is stored into io_error
         stored = False
         for f2, bi, si, name in util.field_stores(facts, DWT):
@@ -68,7 +84,7 @@ def run_r1(ctx, rule):
                 if mentions(e, lambda x: x[0] == "v" and x[2] == "Err" and x[1][0] == "call" and x[1][1] == bb):
                     stored = True
         rule.check(stored, "%s/sink-error-parked" % short(nid), "the error of the sink call is parked in io_error", f.loc(bb))
-    rule.check(seen == homes, "sink/sites", "the sink's write_all has exactly the two call sites flush_defer_err and write_all_defer_err_cold (found %s)" % sorted(short(x) for x in seen))
+    rule.check(kinds == {"flush", "direct"} and len(seen) >= 2, "sink/sites", "the sink is written to by a flush of the whole buffer and by the direct write of an oversized slice, and by nothing else (found %s in %s)" % (sorted(kinds), sorted(short(x) for x in seen)))
     # io_error stores: only from a sink error, or take()
     for f2, bi, si, name in util.field_stores(facts, DWT):
         if name == "panicked":
@@ -95,9 +111,44 @@ def run_r2(ctx, rule):
             rule.check(not grows, "flush_defer_err/no-append-before-clear", "nothing is appended between the sink call and the clear", f.loc(bb))
 
 
+def slice_consumers(facts):
+    """private DeferredWriter helpers taking (self, slice) that hand their slice to the buffer or the sink exactly once
+    on every returning path (or drop it on the parked-error branch): calling one is a use of the argument"""
+    out = {}
+    for i, g in facts.fns.items():
+        nid = norm(i)
+        if g.crate in ("ext", "promoted") or not nid.startswith(DW) or g.j.get("pub") or g.argc != 2 or nid == DW + "write_all_defer_err_cold":
+            continue
+        if "[u8]" not in g.locals[2].get("s", ""):
+            continue
+        good = True
+        n = 0
+        kinds = set()
+        try:
+            for p, cut in cfg(g).paths():
+                if g.term(p[-1])["k"] != "return":
+                    continue
+                n += 1
+                st = PathExec(facts, g).run_path(p)
+                calls = [(e[2][0], e[2][1]) for e in st.events if e[0] == "call"]
+                uses = [a for cn, a in calls if (cn.endswith("extend_from_slice") or (cn.endswith("::write_all") and "io" in cn)) and len(a) > 1 and a[1] == Aff.sym("arg2")]
+                kinds |= set("buffer" if cn.endswith("extend_from_slice") else "sink" for cn, a in calls if (cn.endswith("extend_from_slice") or (cn.endswith("::write_all") and "io" in cn)) and len(a) > 1 and a[1] == Aff.sym("arg2"))
+                other = [cn for cn, a in calls if (cn.endswith("extend_from_slice") or (cn.endswith("::write_all") and "io" in cn)) and not (len(a) > 1 and a[1] == Aff.sym("arg2"))]
+                skipped = any(e[0] == "branch" and isinstance(e[2][0], Aff) and e[2][1] == ("eq", 0) for e in st.events)
+                if other or not (len(uses) == 1 or (len(uses) == 0 and skipped)):
+                    good = False
+        except Exception:
+            good = False
+        if good and n:
+            out[nid] = kinds
+    return out
+
+
 def run_r3(ctx, rule):
     facts = ctx.facts
     f = wfn(facts, DW + "write_all_defer_err_cold")
+    consumers = slice_consumers(facts)
+    rule.note("slice_consuming_helpers", sorted(short(x) for x in consumers))
     n_paths = 0
     for p, cut in cfg(f).paths():
         if f.term(p[-1])["k"] != "return":
@@ -112,7 +163,7 @@ def run_r3(ctx, rule):
         for i, (bb, cn, a) in enumerate(calls):
             if cn == DW + "flush_defer_err":
                 flush_at = i
-            if cn.endswith("extend_from_slice") or (cn.endswith("::write_all") and "io" in cn):
+            if cn.endswith("extend_from_slice") or (cn.endswith("::write_all") and "io" in cn) or norm(cn) in consumers:
                 uses.append((i, bb, cn, a[1] if len(a) > 1 else None))
         key = "cold/path-%s" % ("split" if split else "nosplit")
         if flush_at is None:
@@ -133,7 +184,7 @@ def run_r3(ctx, rule):
             u_first = [u for u in uses if u[3] == first]
             u_second = [u for u in uses if u[3] == second]
             u_inp = [u for u in uses if u[3] == inp]
-            rule.check(len(u_first) == 1 and u_first[0][0] < flush_at and u_first[0][2].endswith("extend_from_slice"), key + "/first-part", "the first part is buffered exactly once, before the flush", f.loc(sbb))
+            rule.check(len(u_first) == 1 and u_first[0][0] < flush_at and (u_first[0][2].endswith("extend_from_slice") or consumers.get(norm(u_first[0][2])) == {"buffer"}), key + "/first-part", "the first part is buffered exactly once, before the flush", f.loc(sbb))
             rule.check((len(u_second) == 1 and u_second[0][0] > flush_at) or (len(u_second) == 0 and skipped_ok), key + "/second-part", "the second part is buffered or written exactly once, after the flush (or discarded under a parked error)", f.loc(sbb))
             rule.check(not u_inp, key + "/no-reuse", "the unsplit input is not used again after the split", f.loc(sbb))
         else:
@@ -228,7 +279,7 @@ def run_r6(ctx, rule):
 
 
 def run(ctx):
-    r1 = ctx.rule("C11-R1", "the sink is called only from the two sanctioned sites, only while no error is parked, and its error is parked", floor=5)
+    r1 = ctx.rule("C11-R1", "the sink receives only the whole buffer (flush) or the caller's oversized slice (direct), through write_all, only while no error is parked, and its error is parked", floor=5)
     run_r1(ctx, r1)
     r2 = ctx.rule("C11-R2", "every flush clears the buffer; the whole buffer is written; nothing is appended in between", floor=3)
     run_r2(ctx, r2)
